@@ -42,6 +42,10 @@ pub struct World {
     pub pop: Pop,
     pub bus: VirtualSignBus<'static>,
     pub shadows: Vec<VirtualSign<'static>>,
+    /// a second copy of every sign that is spared all the traffic it must ignore: it gets the messages addressed to it,
+    /// and unaddressed data only while it is itself in a receiving state. "Unaddressed data affects only signs that are
+    /// receiving" means that the sign on the bus can never be told apart from this one — not now and not 70 000 chunks later.
+    pub quiet: Vec<VirtualSign<'static>>,
     /// reference machines, used only to steer the workload (never as the oracle here)
     pub guides: Vec<RefSign>,
 }
@@ -51,6 +55,7 @@ impl World {
         World {
             bus: VirtualSignBus::new(pop.addrs.iter().zip(&pop.autos).map(|(a, au)| mk_sign(*a, *au))),
             shadows: pop.addrs.iter().zip(&pop.autos).map(|(a, au)| mk_sign(*a, *au)).collect(),
+            quiet: pop.addrs.iter().zip(&pop.autos).map(|(a, au)| mk_sign(*a, *au)).collect(),
             guides: pop.addrs.iter().zip(&pop.autos).map(|(a, au)| RefSign::new(*a, *au)).collect(),
             pop: pop.clone(),
         }
@@ -120,6 +125,22 @@ pub fn deliver(w: &mut World, m: &RefMsg, rep: &mut Report) -> Vec<(&'static str
         Ok(Ok(r)) => r,
     };
     let after: Vec<Obs> = (0..n).map(|i| vsx::observe(w.bus.sign(i))).collect();
+    // the quiet copies
+    for i in 0..n {
+        let gets_it = match tgt {
+            Some(a) => a == w.pop.addrs[i],
+            None => receiving(&vsx::observe(&w.quiet[i])),
+        };
+        if gets_it {
+            let lm = refs::from_ref(m);
+            let q = &mut w.quiet[i];
+            let _ = catch(|| q.process_message(&lm).map(|x| refs::to_ref(&x)));
+        }
+        let qo = vsx::observe(&w.quiet[i]);
+        if after[i] != qo {
+            bad.push(("sign_affected_by_traffic_it_must_ignore", format!("after {} sign {:04X} on the bus: {}; a copy that was spared every message it must ignore: {}", m.show(), w.pop.addrs[i], after[i].show(), qo.show())));
+        }
+    }
     let owner = tgt.and_then(|a| w.pop.addrs.iter().position(|x| *x == a));
     match (tgt, owner) {
         (Some(a), Some(i)) => {
@@ -254,6 +275,54 @@ fn absent_addr(rng: &mut Rng, pop: &Pop) -> u16 {
     }
 }
 
+/// Sign A receives k chunks in one transfer while sign B sits idle in a settled state; then B gets an ordinary
+/// transfer. k runs over the values around 2^8 and 2^16 where a private tally kept by the idle sign would wrap.
+fn neighbour_traffic(rep: &mut Report) {
+    let pop = Pop { addrs: vec![3, 6], autos: vec![false, true] };
+    for k in [254usize, 255, 256, 257, 65_530, 65_533, 65_534, 65_535, 65_536, 65_537, 65_540] {
+        for b_ready in [false, true] {
+            let mut history: Vec<RefMsg> = vec![];
+            history.extend(vsx::configure_msgs(3, &vsx::TINY1));
+            if b_ready {
+                history.extend(vsx::configure_msgs(6, &vsx::TINY2));
+            }
+            history.push(RefMsg::Request(3, O_RECV_PIX));
+            // (one-byte chunks at a non-zero offset: they are counted and buffered but never complete a page, so that the
+            // per-message snapshots stay small)
+            for i in 0..k {
+                history.push(RefMsg::Data { offset: if i == 0 { 0 } else { 16 }, data: vec![i as u8] });
+            }
+            history.push(RefMsg::Count(k as u16));
+            history.push(RefMsg::Query(3));
+            // B's turn
+            if !b_ready {
+                history.extend(vsx::configure_msgs(6, &vsx::TINY2));
+            }
+            history.push(RefMsg::Request(6, O_RECV_PIX));
+            history.push(RefMsg::Data { offset: 0, data: vsx::page_chunk(2, 0x11) });
+            history.push(RefMsg::Data { offset: 16, data: vec![0x22; 16] });
+            history.push(RefMsg::Count(2));
+            history.push(RefMsg::Query(6));
+            history.push(RefMsg::Query(3));
+            rep.case(Some(fnv(format!("neighbour-{}-{}", k, b_ready).as_bytes())));
+            let mut w = World::new(&pop);
+            let mut upto = 0;
+            let mut bad = vec![];
+            for (i, m) in history.iter().enumerate() {
+                bad = deliver(&mut w, m, rep);
+                upto = i + 1;
+                if !bad.is_empty() {
+                    break;
+                }
+            }
+            if !bad.is_empty() {
+                report(&pop, &history[..upto], &bad, rep);
+            }
+            rep.count("neighbour_traffic_histories");
+        }
+    }
+}
+
 fn random_history(rng: &mut Rng, max_len: usize, rep: &mut Report) {
     let len = 1 + rng.usize(max_len);
     history_of_length(rng, len, rep)
@@ -369,6 +438,9 @@ pub fn run(ctx: &Ctx) -> Outcome {
             explore_two_signs(bfs_cfgs[shard].0, bfs_cfgs[shard].1, rep);
         } else {
             let mut rng = ctx.rng("hist", (shard - nb) as u64);
+            if shard - nb == 3 {
+                neighbour_traffic(rep);
+            }
             if shard - nb < 3 {
                 // one bus object living through 100 000 messages
                 history_of_length(&mut rng, 100_000, rep);
@@ -385,6 +457,7 @@ pub fn run(ctx: &Ctx) -> Outcome {
         floor("(addressed message kind x bystander state) cells observed (of 130)", cells >= 125, cells),
         floor("data delivered while >= 2 signs were receiving", report.get("data_while_two_signs_receiving") > 0, report.get("data_while_two_signs_receiving")),
         floor("absent-address messages of all 10 kinds", report.set_len("absent_address_kinds") == 10, report.set_len("absent_address_kinds")),
+        floor("neighbour traffic of 254..65540 chunks past an idle sign, then that sign's own transfer", report.get("neighbour_traffic_histories") == 22, report.get("neighbour_traffic_histories")),
         floor("three histories of 100 000 messages on one bus", report.get("long_histories") == 3, report.get("long_histories")),
         floor("populations of 1..4 signs", report.set_len("population_sizes") == 4, report.set_len("population_sizes")),
         floor("unaddressed data and ignored kinds delivered", report.get("delivered/unaddressed_data") > 0 && report.get("delivered/ignored_kinds") > 0, report.get("delivered/ignored_kinds")),
